@@ -542,6 +542,108 @@ def langfresh(run, fx):
         run.broken('LANGMATCH', 'fresh copy per language', 'expected the two applyValToFeature calls of SillMap::readSill, found %d' % n, fn.where())
 
 
+def applyval_exec(run, fx, rule='FAILATOMIC'):
+    """FeatureRef::applyValToFeature by bounded execution (rules/ordint.py; graphite2::Vector's own code from List.h, as in rules/vecmodel.py):
+    for every word index 0..2 of the feature, every destination of 0..3 words (capacity exact, so a store behind the last word is a store
+    outside the block) with and without a map, and values up to and just above the maximum -- the call succeeds exactly when the value is
+    at most the maximum and the map is this face's (or none yet); on success the destination has max(old size, index + 1) words, word
+    `index` has the field replaced by the value, every other old word is untouched and every new word is zero; on failure the
+    destination is unchanged."""
+    from . import ordint as O
+    from . import vecmodel as VM_
+    fn = fx.one('graphite2::FeatureRef::applyValToFeature')
+    FR, FV = 'graphite2::FeatureRef::', 'graphite2::FeatureVal::'
+    rec = fx.record('graphite2::FeatureRef')
+    inst = 'applyValToFeature: success, growth and the written word (interpreted)'
+    cases = 0
+    try:
+        themap, other = O.Rec({'#map': 1}), O.Rec({'#map': 2})
+        for idx in range(0, 3):
+            for size in range(0, 4):
+                for mapk in ('none', 'own', 'other'):
+                    for bits, width in ((0, 2), (4, 3)):
+                        mx = (1 << width) - 2
+                        mask = ((1 << width) - 1) << bits
+                        for val in (0, 1, mx, mx + 1, 0xFFFF):
+                            old = [0x11111111 * (k + 1) & 0xFFFFFFFF for k in range(size)]
+                            v, heap = VM_._mkvec(list(old), size)
+                            v[FV + 'm_pMap'] = O.Ptr({'none': None, 'own': themap, 'other': other}[mapk])
+                            fr = O.Rec()
+                            for f in rec['fields']:
+                                fr[FR + f['n']] = O.Ptr(None) if f.get('ptr') else 0
+                            fr[FR + 'm_face'] = O.Ptr(O.Rec({'#face': 1}))
+                            fr[FR + 'm_index'], fr[FR + 'm_bits'], fr[FR + 'm_mask'], fr[FR + 'm_max'] = idx, bits, mask, mx
+                            nat = dict(VM_._natives(heap))
+                            nat['graphite2::Face::theSill'] = lambda I, f, e, obj, a: O.Rec({'#sill': 1})
+                            nat['graphite2::SillMap::theFeatureMap'] = lambda I, f, e, obj, a: O.LV([themap], 0)
+                            it = O.Interp(fx, natives=nat)
+                            it.raw_vectors = True
+                            it.MAX_STEPS = 8000
+                            desc = 'feature word %d, field %#x, max %d, value %d, destination of %d word(s), %s' % (idx, mask, mx, val, size, {'none': 'no map yet', 'own': 'this face\'s map', 'other': 'another face\'s map'}[mapk])
+                            cases += 1
+                            try:
+                                r = it.call(fn, fr, [val, O.LV([v], 0)])
+                                got = VM_._contents(v)
+                            except O.Violation as ex:
+                                run.violated(rule, inst, fn.where(), '%s: %s (%s)' % (desc, ex.what, ex.loc))
+                                return
+                            ok = val <= mx and mapk != 'other'
+                            if bool(r) != ok:
+                                run.violated(rule, inst, fn.where(), '%s: the call %s, expected it to %s' % (desc, 'succeeds' if r else 'fails', 'succeed' if ok else 'fail'))
+                                return
+                            want = list(old)
+                            if ok:
+                                want += [0] * max(0, idx + 1 - size)
+                                want[idx] = (want[idx] & ~mask & 0xFFFFFFFF) | (val << bits)
+                            got = [g & 0xFFFFFFFF if isinstance(g, int) else g for g in got]
+                            if got != want:
+                                run.violated(rule, inst, fn.where(), '%s: the destination is %s afterwards, expected %s' % (desc, [hex(g) if isinstance(g, int) else repr(g) for g in got], [hex(w) for w in want]))
+                                return
+    except AnalysisBroken as ex:
+        run.broken(rule, inst, str(ex), fn.where())
+        return
+    run.held(rule, inst, fn.where(), '%d abstract executions' % cases)
+
+
+def labelvalidate_exec(run, fx, rule='LABELENC'):
+    """NameTable::getName hands a label to the converters only when utf16::validate accepts it: interpreted (rules/ordint.py) on every
+    name string of 1..3 units over the classes the codec distinguishes.  A string is refused exactly when its LAST unit is a lead
+    surrogate (a pair cut off by the length field); a label that ends in a complete pair, or in any other unit, is a valid label and
+    must come through (gr_fref_label / gr_fref_value_label return NULL otherwise)."""
+    import itertools
+    from . import ordint as O
+    keys = [k for k in fx.raw['functions'] if k.startswith('_ZN9graphite23utfItE8validate') and k.endswith('@NameTable.cpp')]
+    if len(keys) != 1:
+        run.broken(rule, 'a label ending in a complete surrogate pair is accepted', 'utf<uint16>::validate as instantiated in NameTable.cpp was not found')
+        return
+    fn = fx.fn(keys[0])
+    units = (0x0041, 0xD7FF, 0xD800, 0xDBFF, 0xDC00, 0xDFFF, 0xE000, 0xFFFF)
+    cases = 0
+    inst = 'a label ending in a complete surrogate pair is accepted'
+    try:
+        for n in (1, 2, 3):
+            for us in itertools.product(units, repeat=n):
+                buf = O.Vec(list(us))
+                it = O.Interp(fx)
+                it.MAX_STEPS = 4000
+                cases += 1
+                try:
+                    r = it.call(fn, None, [O.It(buf, 0), O.It(buf, n)])
+                except O.Violation as v:
+                    run.violated(rule, inst, fn.where(), 'units %s: %s (%s)' % (' '.join('%04X' % u for u in us), v.what, v.loc))
+                    return
+                want = not (0xD800 <= us[-1] <= 0xDBFF)
+                if bool(r) != want:
+                    run.violated(rule, inst, fn.where(), 'the %d-unit name string %s is %s by utf16::validate, expected it to be %s (only a lead surrogate in last place is a cut-off pair): '
+                                 '%s' % (n, ' '.join('%04X' % u for u in us), 'accepted' if r else 'refused', 'accepted' if want else 'refused',
+                                         'NameTable::getName returns no label for it in any encoding' if want else 'the converters run into the cut-off pair'))
+                    return
+    except AnalysisBroken as ex:
+        run.broken(rule, inst, str(ex), fn.where())
+        return
+    run.held(rule, inst, fn.where(), '%d strings of 1..3 units' % cases)
+
+
 def run(run):
     fx = run.facts('Q0')
     maskexec(run, fx)
@@ -576,8 +678,10 @@ def run(run):
         finally:
             run.cfg_tag = ''
     from . import vecmodel
-    vecmodel.check(run, fx, 'FAILATOMIC')     # applyValToFeature grows the value vector with resize(): the words it appends must be zero, the others untouched
+    vecmodel.check(run, fx, 'FAILATOMIC')
+    applyval_exec(run, fx)     # applyValToFeature grows the value vector with resize(): the words it appends must be zero, the others untouched
     from . import c11
+    labelvalidate_exec(run, fx)
     c11.decodeexact(run, fx, 'LABELENC')     # 'labels ... identical in all three encodings': the converters between them are exact on a grid of scalar values (shared with C11)
     from . import c13
     c13.narrowread(run, fx)        # a language tag / feature id / setting read from Feat or Sill is not truncated on its way into the map (shared with C01, C13)
